@@ -25,6 +25,7 @@ import (
 	"fmt"
 	"math/rand"
 	"net"
+	"os"
 	"sort"
 	"strings"
 	"testing"
@@ -116,6 +117,7 @@ func realConfig(c absCfg) *config.Config {
 	if c.Ratelimit {
 		cfg.ClientRateLimit = 2 // two tokens, slow refill: the model's bound
 	}
+	cfg.HostsFile = hostsPath()
 	switch c.ECS {
 	case "on":
 		cfg.ECS.Enabled = true
@@ -131,6 +133,22 @@ func realConfig(c absCfg) *config.Config {
 		cfg.ECS.ClientNetworks = []string{"0.0.0.0/0"}
 	}
 	return cfg
+}
+
+var hostsFile string
+
+func hostsPath() string {
+	if hostsFile == "" {
+		f, err := os.CreateTemp("", "verif-hosts-")
+		if err != nil {
+			panic(err)
+		}
+		fmt.Fprintln(f, "192.0.2.55 hosts-entry.verif.test")
+		fmt.Fprintln(f, "2001:db8::55 hosts-entry.verif.test")
+		f.Close()
+		hostsFile = f.Name()
+	}
+	return hostsFile
 }
 
 // ---- scripted upstream ------------------------------------------------------
@@ -760,6 +778,12 @@ func TestServeReplay(t *testing.T) {
 			ccookie := make([]byte, 8)
 			r.Read(ccookie)
 			nameFor := func(content string) string {
+				switch content {
+				case "hosts":
+					return "hosts-entry.verif.test."
+				case "as112":
+					return fmt.Sprintf("%d.%d.10.in-addr.arpa.", serial&0xFF, serial>>8&0xFF)
+				}
 				return fmt.Sprintf("%s-%d.verif.test.", content, serial)
 			}
 			for si, st := range b.Steps {
